@@ -2,7 +2,7 @@
 discipline), A11 (global effects, thread confinement)."""
 import ast
 
-from ..kfun import Ev, P, calls_in, contains, eval_function, is_call_to, paths, same, strip_seq
+from ..kfun import Ev, P, calls_in, contains, eval_function, is_call_to, paths, returned_closure, same, strip_seq
 from ..model import AnalysisError, norm_text
 from ..regs import class_mro
 from ..ruleir import leaves
@@ -99,13 +99,20 @@ def trace_fn(ctx, world):
 # --------------------------------------------------------------------------------------------- primitive wrapper
 def wrapper(ctx, world):
     ctx.describe("A13.unbox/wrapper", "primitive.f_wrapped: only the boxes of the top trace (as returned by find_top_boxed_args) are replaced by their ._value (one level); the wrapper re-enters itself on those values (never f_raw while boxes may remain); f_raw is called with the original arguments only when no argument is boxed; the answer is boxed with the trace id and node type returned by find_top_boxed_args; parents and argnums are projections of the same boxed_args sequence; the node constructor receives (ans, f_wrapped, argvals, kwargs, argnums, parents)")
-    r, syms, m, node, sc = eval_function(world, TR, "primitive.f_wrapped")
+    # the wrapper is whatever nested function primitive(f_raw) returns (possibly through wraps(...)): found by value
+    clo_w, top_w, osyms, m, outer_fn, outer_sc = returned_closure(world, TR, "primitive")
+    node = clo_w.fnode
     loc = loc_of(m, node)
     q = "autograd.tracer.primitive.f_wrapped"
-    args = syms.get("args")
-    outer_sc = sc.parent
-    f_raw = outer_sc.lookup("f_raw") if outer_sc else None
-    fw = sc.lookup("f_wrapped")
+    f_raw = osyms["#0"]
+    args = T("sym", name="args", role="param", star=True)
+    kwargs_s = T("sym", name="kwargs", role="param", dstar=True)
+    if not (isinstance(node, ast.FunctionDef) and node.args.vararg is not None and node.args.kwarg is not None and not node.args.args):
+        ctx.fail("A13.unbox", "wrapper:shape", f"{q}:shape", loc, "the function returned by primitive() does not take (*args, **kwargs)", "any call of a primitive")
+        return
+    r = world.ev.apply(clo_w, [T("star", x=args)], {}, [kwargs_s])
+    syms = {"args": args, "kwargs": kwargs_s}
+    fw = top_w
 
     def is_self(t):
         # the wrapper referring to itself: the (decorated) closure bound to the name f_wrapped, or unresolved name
@@ -176,8 +183,10 @@ def wrapper(ctx, world):
     def is_reentry(t):
         return t.op == "call" and is_self(t.fn) and len(t.args) == 1 and star_of(t.args[0], is_argvals) and not t.kw and len(t.dstar) == 1 and t.dstar[0] is kw
 
+    nt_table = _notrace_table(world)
+
     def is_notrace_test(a):
-        return a.op == "cmp" and a.opname == "In" and is_self(a.l) and a.r.op == "sub" and a.r.obj.op == "ref" and a.r.obj.ref.qual == "autograd.tracer.notrace_primitives" and is_ctor(a.r.idx)
+        return a.op == "cmp" and a.opname == "In" and is_self(a.l) and a.r.op == "sub" and a.r.obj.op == "ref" and a.r.obj.ref.qual == nt_table and is_ctor(a.r.idx)
 
     cs = cases(r)
     undecided = [c for c in cs if c.pol(is_boxed) is None]
@@ -246,14 +255,27 @@ def wrapper(ctx, world):
             ctx.fail("A13.align", "wrapper:node ctor", f"{q}:node-ctor", loc, "the node is not built by node_constructor(ans, f_wrapped, argvals, kwargs, argnums, parents)", "any traced primitive call")
 
 
+def _notrace_table(world):
+    """qualified name of the registry register_notrace(trace_type, fun) writes (TABLE[trace_type].add(fun)): the table
+    is identified by its writer, not by its name"""
+    r, sy, m, fn, sc = eval_function(world, TR, "register_notrace")
+    for e in sc.effects:
+        for t in walk(e):
+            if t.op == "call" and t.fn.op == "attr" and t.fn.name == "add" and t.fn.obj.op == "sub" and t.fn.obj.obj.op == "ref" and t.fn.obj.idx is sy["#0"] and len(t.args) == 1 and t.args[0] is sy["#1"]:
+                return t.fn.obj.obj.ref.qual
+    raise AnalysisError("register_notrace no longer adds the function to a module-level table indexed by the node type")
+
+
 def notrace_wrapper(ctx, world):
     ctx.describe("A13.unbox/notrace", "notrace_primitive applies the recursive getval to every positional argument and calls the raw function; getval strips all levels")
-    r, syms, m, node, sc = eval_function(world, TR, "notrace_primitive.f_wrapped")
+    clo_n, top_n, osy_n, m, outer_n, osc_n = returned_closure(world, TR, "notrace_primitive")
+    node = clo_n.fnode
     loc = loc_of(m, node)
     q = "autograd.tracer.notrace_primitive.f_wrapped"
-    r = strip_seq(r)
-    f_raw = sc.parent.lookup("f_raw")
-    args, kw = syms.get("args"), syms.get("kwargs")
+    f_raw = osy_n["#0"]
+    args = T("sym", name="args", role="param", star=True)
+    kw = T("sym", name="kwargs", role="param", dstar=True)
+    r = unseq(expand(world.ev, world.ev.apply(clo_n, [T("star", x=args)], {}, [kw]), {"autograd.tracer.getval"}))
     good = False
     if r is not None and r.op == "call" and r.fn is f_raw and len(r.args) == 1 and r.args[0].op == "star":
         inner = r.args[0].x
@@ -276,7 +298,7 @@ def notrace_wrapper(ctx, world):
     ok = False
     if isinstance(gv, (ast.Lambda, ast.FunctionDef)):
         x = P("x")
-        from ..terms import Scope, T
+        from ..terms import Scope
         res = world.ev.apply(T("closure", gv, tm, fnode=gv, scope=Scope(), bound=[], boundkw={}), [x], {})
         cs = cases(unseq(res))
         is_test = lambda a: is_call_to(a, "autograd.tracer.isbox") and len(a.args) == 1 and a.args[0] is x
